@@ -794,6 +794,10 @@ class Evaluator:
             if isinstance(v, (int, float, str, dict, bool)) or (isinstance(v, (list, tuple)) and not isinstance(v, Vec1)):
                 if all(t in kinds for t in types.replace("(", " ").replace(")", " ").replace(",", " ").split()):
                     return any(isinstance(v, kinds[k]) and not (k == "int" and isinstance(v, bool)) for k in named)
+            if self.resolve is not None:
+                got = self.resolve(e, self, f)  # a class of the repository: the rule knows what its value models stand for
+                if isinstance(got, bool):
+                    return got
             raise NotEval("isinstance of a symbolic value")
         if name == "slice":
             a = A()
